@@ -230,7 +230,7 @@ def materialise_chain(ch, root, scn=None, dirpath="links", rng=None, top=True):
     scn = scn or W.Scenario()
     scn.root = root
     payload = build_layout_payload(ch, root)
-    content = W.wrap(payload, ch.layout_fmt, ch.owners, scn.table)
+    content = W.wrap(payload, ch.layout_fmt, getattr(ch, "layout_signers", None) or ch.owners, scn.table)
     if top:
         scn.product_files = dict(ch.final)
         scn.layout = content
@@ -413,6 +413,42 @@ def edit_payload_leaf(content, rng, path=None):
     return c, {"path": list(path), "old": old, "new": new}
 
 
+FALSY = [None, False, 0, "", [], {}]
+
+
+def falsy_edit(content, rng):
+    """Replaces one container- or integer-valued member of the signed content by a falsy value of another kind
+    ({} -> null, [] -> 0, threshold 1 -> null, ...): content that differs from what was signed and, mostly, is not even
+    well-formed - never to be treated like a missing member and defaulted.  Returns (new content, description) or None."""
+    import base64
+    c = copy.deepcopy(content)
+    body = c["signed"] if "signed" in c else json.loads(base64.b64decode(c["payload"]))
+    cands = []
+    if body.get("_type") == "link":
+        cands = [(k,) for k in ("materials", "products", "byproducts", "environment", "command") if k in body]
+    elif body.get("_type") == "layout":
+        cands = [(k,) for k in ("steps", "inspect", "keys") if k in body]
+        for i, st in enumerate(body.get("steps") or []):
+            cands += [("steps", i, k) for k in ("expected_materials", "expected_products", "pubkeys", "expected_command", "threshold") if k in st]
+        for i, ins in enumerate(body.get("inspect") or []):
+            cands += [("inspect", i, k) for k in ("expected_materials", "expected_products", "run") if k in ins]
+    if not cands:
+        return None
+    path = rng.choice(cands)
+    old = get_at(body, path)
+    # (a bool is an int for Python: threshold false / true is left to the ordinary leaf edits)
+    options = [v for v in FALSY if v != old and type(v) is not type(old) and not (path[-1] == "threshold" and isinstance(v, bool))]
+    if isinstance(old, int) and not isinstance(old, bool) and old != 0:
+        options.append(0)
+    if not options:
+        return None
+    new = rng.choice(options)
+    set_at(body, path, new)
+    if "signed" not in c:
+        c["payload"] = base64.b64encode(json.dumps(body, sort_keys=True).encode("utf8")).decode()
+    return c, {"path": list(path), "old": old, "new": new, "kind": "falsy"}
+
+
 def parse_equal_edit(content, rng):
     """An edit of a Metablock file that parses to the same object (unknown
     member added, `_type` of a step overwritten, defaulted member dropped)."""
@@ -488,6 +524,9 @@ def file_sig_ok(content, key, table_rows, original_msg):
                     return True
         return False
     for s in sigs:
-        if s.get("keyid") == key["keyid"] or s.get("keyid") in (key.get("subkeys") or {}):
+        if s.get("keyid") == key["keyid"]:
             return (W.sig_value(s), mat, original_msg) in rows
+        if s.get("keyid") in (key.get("subkeys") or {}):
+            # signed by a subkey of the given key: that subkey's material made the signature
+            return (W.sig_value(s), W.key_material(key["subkeys"][s["keyid"]]), original_msg) in rows
     return False
